@@ -64,6 +64,24 @@ func withGenEdge(pd *PropDef) {
 	}
 }
 
+// withGraphEdge adds the graph-capacity history (graphedge.go) to a property, on every 8th case.
+func withGraphEdge(pd *PropDef) {
+	prev := pd.Extra
+	pd.Extra = func(it *Interp, ops []Op) {
+		if prev != nil {
+			prev(it, ops)
+		}
+		if h := opsHash(ops); h%8 == 2 {
+			before := graphEdgeHits
+			graphEdgeCheck(h)
+			it.count("graph-capacity-history")
+			if graphEdgeHits > before {
+				it.count("graph-capacity-history-with-directed-call")
+			}
+		}
+	}
+}
+
 // withScale adds the beyond-16-bit history (scale.go) to a property, on one case in every so many (it takes seconds).
 func withScale(pd *PropDef, every, rest uint64) {
 	prev := pd.Extra
@@ -105,6 +123,9 @@ func applyDefaults() {
 	}
 	for _, id := range []string{"C02", "C17"} {
 		withGenEdge(Props[id])
+	}
+	for _, id := range []string{"C19", "C01"} {
+		withGraphEdge(Props[id])
 	}
 	for id, pd := range Props {
 		if pd.Profile.Bulk == 0 {
